@@ -430,7 +430,26 @@ PREFIX = ['', '', '', '', 'C:', 'c:', 'D:', 'd:', 'E:', '@:', 'AB:', ':', '1:', 
 ALPHABET = b'ABCabc019:\\/.*? ' + bytes([0, 9, 255, 0x81, 0xe1])
 
 
+# elements made of dots, blanks and a few name characters: whatever stripping / clipping to 8.3 / normalising does
+# to them, they must never end up as "." or ".." on the host
+DOTTY = ['..  X', '.. X', '. .', '..x', '.  .', '..  ABC', '.   X', '..   X', '..  .', '. ..', '.. .', '...  X', '.  X',
+         '..  X.Y', '..\tX', '..  x  ', '.  ', '..     X', '..  XYZ.TXT', '.. .X', '..  \xff', ' ..  X', '..  X ',
+         '.' + ' ' * 7 + 'X', '..' + ' ' * 9 + 'LONGTAIL', '.       .', '..  SECRET.TXT', '..  SIB', '.. . .', '..  ..']
+
+
+def gen_dotty(rng):
+    if rng.random() < 0.6:
+        return b(rng.choice(DOTTY).encode('latin1').decode('unicode_escape').encode('latin1'))
+    n = rng.choice([2, 3, 4, 5, 6, 8, 10, 13])
+    lead = rng.choice(['.', '..', '..', '. ', '.. ', '..  '])
+    body = ''.join(rng.choice('.  \tXa1') for _ in range(max(0, n - len(lead))))
+    return b((lead + body).replace('\\t', '\t'))
+
+
 def gen_element(rng, names):
+    r = rng.random()
+    if r < 0.18:
+        return gen_dotty(rng)
     r = rng.random()
     if r < 0.4 and names:
         n = rng.choice(names)
@@ -462,7 +481,8 @@ def gen_path(rng, names):
     parts = []
     for i in range(n):
         if i < n - 1 and rng.random() < 0.5:
-            parts.append(b(rng.choice(['..', '.', 'SUB', 'Sub2', '.. ', 'sub', 'X', ''])))
+            parts.append(gen_dotty(rng) if rng.random() < 0.3 else
+                         b(rng.choice(['..', '.', 'SUB', 'Sub2', '.. ', 'sub', 'X', ''])))
         else:
             parts.append(gen_element(rng, names))
     sep = b('/') if rng.random() < 0.04 else b('\\')
@@ -572,6 +592,13 @@ class C27(core.Check):
             h(t1, ['LOAD', b('.. \\PROG')], ['SAVE', b('.. \\NEW')], ['BSAVE', b('..\t\\NEW')], ['MKDIR', b('.. \\NEWDIR')],
               ['RMDIR', b('.. \\SIB')], ['OPENA', b('.. \\SECRET.TXT')]),
             h(t1, ['CHDIR', b('D:.. ')], ['FILES', b('D:')], ['OPENR', b('D:SECRET.TXT')]),
+            # elements that clip / strip / normalise towards ".." (seeded/C27b class)
+            h(t1, ['OPENI', b('..  X\\SECRET.TXT')], ['FILES', b('..  X\\*.*')], ['KILL', b('..  X\\SECRET.TXT')]),
+            h(t1, ['CHDIR', b('SUB')], ['CHDIR', b('..\\..  ABC')], ['FILES0', []], ['OPENI', b('SECRET.TXT')]),
+            h(t1, ['CHDIR', b('..  X')], ['MKDIR', b('..  X\\NEWDIR')], ['SAVE', b('SUB\\..  Y\\..  Z\\P')],
+              ['NAME', b('..  X\\SECRET.TXT'), b('GOT.TXT')], ['RMDIR', b('..  X\\SIB')]),
+            h(t1, ['CHDIR', b('. .')], ['CHDIR', b('.  .')], ['CHDIR', b('.. X')], ['CHDIR', b('..x')], ['OPENO', b('..  X')],
+              ['OPENO', b('.  X')], ['MKDIR', b('..  X')]),
             # D27a witnesses
             h(t1, ['CHDIR', b('AB:foo')], ['FILES', b(':')], ['KILL', b('BC:X')], ['NAME', b('A'), b('XY:B')]),
             # ordinary behaviour
